@@ -133,7 +133,7 @@ func (b *builder) anyGraph(spec *GraphSpec) (compose.AnyGraph, error) {
 // ---------------------------------------------------------------- node options
 
 func (b *builder) nodeOpts(g *GraphSpec, n *NodeSpec) []compose.GraphAddNodeOpt {
-	var opts []compose.GraphAddNodeOpt
+	opts := []compose.GraphAddNodeOpt{compose.WithNodeName(n.Key)} // the run info of callbacks names the node
 	if n.InputKey != "" {
 		opts = append(opts, compose.WithInputKey(n.InputKey))
 	}
